@@ -5,6 +5,7 @@ the root-key field, whose location `L` is resolved from the regenerated table) i
 iteration is an R-mode operation that reads it. Helper lemmas for `Verif.Props.C16Map`.
 -/
 import Verif.Props.C01
+import Verif.Props.C02
 import Verif.Lemmas.RWDiscipline
 
 set_option linter.unusedSimpArgs false
@@ -12,46 +13,72 @@ set_option linter.unusedVariables false
 namespace Verif.C16Map
 open Verif.RW Verif.Mpt Verif.Props.C01
 
-def isUpdate : Op → Bool
-  | .ins _ _ => true
-  | .del _ => true
+/-- the operations of the trie model in the concurrent setting: the C01 operations, `GetRoot`, and `SaveChanges` -/
+inductive TOp where
+  | base (op : Verif.Props.C01.Op)
+  | root
+  | save
+
+/-- what an operation returns -/
+inductive TObs where
+  | obs (o : Obs)
+  | root (r : Bytes)
+  | saved
+
+/-- sequential semantics: the C01 model step; `GetRoot` returns the root key of the trie (C02's `root`, for the hash
+function `H`); `SaveChanges` writes the pending change set to ANOTHER store and leaves the trie (the map) as it is -/
+def tstep (H : Bytes → Bytes) (maxSize : Nat) (s : MState) : TOp → MState × TObs
+  | .base op => ((mstep maxSize s op).1, .obs (mstep maxSize s op).2)
+  | .root => (s, .root (root H s.t))
+  | .save => (s, .saved)
+
+def trun (H : Bytes → Bytes) (maxSize : Nat) (s : MState) : List TOp → MState × List TObs
+  | [] => (s, [])
+  | op :: ops =>
+    let r := tstep H maxSize s op
+    let r' := trun H maxSize r.1 ops
+    (r'.1, r.2 :: r'.2)
+
+def isUpdate : TOp → Bool
+  | .base (.ins _ _) => true
+  | .base (.del _) => true
   | _ => false
 
 /-- `SetVersion` is outside the claimed scope of C16 -/
-def NoVer : Op → Prop
-  | .ver _ => False
+def NoVer : TOp → Prop
+  | .base (.ver _) => False
   | _ => True
 
 /-- critical section of a trie operation over location `L` -/
-def body (L : Loc) (maxSize : Nat) (op : Op) : Prog MState Obs :=
+def body (L : Loc) (H : Bytes → Bytes) (maxSize : Nat) (op : TOp) : Prog MState TObs :=
   if isUpdate op then
-    .rd L 0 (fun s => .wr L 0 (mstep maxSize s op).1 (.rel (.ret (mstep maxSize s op).2)))
+    .rd L 0 (fun s => .wr L 0 (tstep H maxSize s op).1 (.rel (.ret (tstep H maxSize s op).2)))
   else
-    .rd L 0 (fun s => .rel (.ret (mstep maxSize s op).2))
+    .rd L 0 (fun s => .rel (.ret (tstep H maxSize s op).2))
 
-def modeOfOp (op : Op) : Mode := if isUpdate op then .W else .R
+def modeOfOp (op : TOp) : Mode := if isUpdate op then .W else .R
 
 /-- the operation as the threads run it: take the trie's lock in the mode the real method takes, run, release -/
-def opProg (L : Loc) (maxSize : Nat) (op : Op) : Prog MState Obs := .acq (modeOfOp op) (body L maxSize op)
+def opProg (L : Loc) (H : Bytes → Bytes) (maxSize : Nat) (op : TOp) : Prog MState TObs := .acq (modeOfOp op) (body L H maxSize op)
 
-theorem body_run (L : Loc) (maxSize : Nat) (op : Op) (h : NoVer op) (mem : Loc → MState) :
-    ((body L maxSize op).run mem).2 = (mstep maxSize (mem L) op).2 ∧
-    ((body L maxSize op).run mem).1 L = (mstep maxSize (mem L) op).1 := by
-  cases op <;> simp [body, isUpdate, Prog.run, mstep, NoVer] at h ⊢
+theorem body_run (L : Loc) (H : Bytes → Bytes) (maxSize : Nat) (op : TOp) (h : NoVer op) (mem : Loc → MState) :
+    ((body L H maxSize op).run mem).2 = (tstep H maxSize (mem L) op).2 ∧
+    ((body L H maxSize op).run mem).1 L = (tstep H maxSize (mem L) op).1 := by
+  rcases op with (_ | _ | _ | _ | _) | _ | _ <;> simp [body, isUpdate, Prog.run, tstep, mstep, NoVer] at h ⊢
 
-theorem bodyOK (L : Loc) (maxSize : Nat) (op : Op) : BodyOK (body L maxSize op) := by
-  cases op <;> simp [body, isUpdate, BodyOK]
+theorem bodyOK (L : Loc) (H : Bytes → Bytes) (maxSize : Nat) (op : TOp) : BodyOK (body L H maxSize op) := by
+  rcases op with (_ | _ | _ | _ | _) | _ | _ <;> simp [body, isUpdate, BodyOK]
 
 /-- sequential run of logged bodies = the C01 model run of the corresponding operations -/
-theorem seqRun_mrun (L : Loc) (maxSize : Nat) : ∀ (es : List (LinEntry MState Obs)) (ops : List Op) (mem : Loc → MState),
-    es.map (·.prog) = ops.map (body L maxSize) → (∀ op, op ∈ ops → NoVer op) →
-    (seqRun es mem).2 = (mrun maxSize (mem L) ops).2 ∧ (seqRun es mem).1 L = (mrun maxSize (mem L) ops).1 := by
+theorem seqRun_mrun (L : Loc) (H : Bytes → Bytes) (maxSize : Nat) : ∀ (es : List (LinEntry MState TObs)) (ops : List TOp) (mem : Loc → MState),
+    es.map (·.prog) = ops.map (body L H maxSize) → (∀ op, op ∈ ops → NoVer op) →
+    (seqRun es mem).2 = (trun H maxSize (mem L) ops).2 ∧ (seqRun es mem).1 L = (trun H maxSize (mem L) ops).1 := by
   intro es
   induction es with
   | nil =>
     intro ops mem h _
     cases ops with
-    | nil => simp [seqRun, mrun]
+    | nil => simp [seqRun, trun]
     | cons o os => simp at h
   | cons e es ih =>
     intro ops mem h hnv
@@ -60,38 +87,106 @@ theorem seqRun_mrun (L : Loc) (maxSize : Nat) : ∀ (es : List (LinEntry MState 
     | cons o os =>
       simp only [List.map_cons, List.cons.injEq] at h
       obtain ⟨he, hes⟩ := h
-      have hb := body_run L maxSize o (hnv o (by simp)) mem
+      have hb := body_run L H maxSize o (hnv o (by simp)) mem
       have := ih os (e.prog.run mem).1 hes (fun op hop => hnv op (by simp [hop]))
-      simp only [seqRun, mrun]
+      simp only [seqRun, trun]
       rw [he, hb.2] at this
       rw [he]
       exact ⟨by rw [hb.1, this.1], this.2⟩
 
-/-- the programs a thread can be left with while it runs `opProg op` -/
-inductive Suffix (L : Loc) (maxSize : Nat) (op : Op) : Prog MState Obs → Prop
-  | whole : Suffix L maxSize op (.acq (modeOfOp op) (body L maxSize op))
-  | bodyU : isUpdate op = true →
-      Suffix L maxSize op (.rd L 0 (fun s => .wr L 0 (mstep maxSize s op).1 (.rel (.ret (mstep maxSize s op).2))))
-  | bodyR : isUpdate op = false → Suffix L maxSize op (.rd L 0 (fun s => .rel (.ret (mstep maxSize s op).2)))
-  | wr (s : MState) : Suffix L maxSize op (.wr L 0 (mstep maxSize s op).1 (.rel (.ret (mstep maxSize s op).2)))
-  | rel (s : MState) : Suffix L maxSize op (.rel (.ret (mstep maxSize s op).2))
-  | ret (r : Obs) : Suffix L maxSize op (.ret r)
+/-! ### the sequential specification of the extended operations -/
 
-theorem Suffix.ofBody (L : Loc) (maxSize : Nat) (op : Op) : Suffix L maxSize op (body L maxSize op) := by
+/-- the model state is the canonical trie (all nodes of origin `v0`, trie at version `v0`) of the map `m` -/
+def TInv (v0 : Nat) (s : MState) (m : Spec) : Prop :=
+  WF s.t ∧ AllOrigin v0 s.t ∧ s.v = v0 ∧ ∀ q, lookup s.t q = m q
+
+/-- effect on the specification map: only the C01 updates change it; `GetRoot` and `SaveChanges` do not -/
+def tsstep (maxSize : Nat) (m : Spec) : TOp → Spec
+  | .base op => (sstep maxSize m op).1
+  | _ => m
+
+def tsfinal (maxSize : Nat) (m : Spec) (ops : List TOp) : Spec := ops.foldl (tsstep maxSize) m
+
+/-- the observations agree with the specification run from map `m`: a C01 operation returns what the map
+specification returns (`ObsRel`); `GetRoot` returns THE root key of the map at that point — the root (C02's `root H`) of
+every canonical single-origin trie that reads as the map; `SaveChanges` returns and leaves the map unchanged -/
+def TRel (H : Bytes → Bytes) (v0 maxSize : Nat) : Spec → List TOp → List TObs → Prop
+  | _, [], [] => True
+  | m, .base op :: ops, .obs o :: os =>
+      ObsRel o (sstep maxSize m op).2 ∧ TRel H v0 maxSize (sstep maxSize m op).1 ops os
+  | m, .root :: ops, .root r :: os =>
+      (∀ t', WF t' → AllOrigin v0 t' → (∀ q, lookup t' q = m q) → r = root H t') ∧ TRel H v0 maxSize m ops os
+  | m, .save :: ops, .saved :: os => TRel H v0 maxSize m ops os
+  | _, _, _ => False
+
+theorem tstep_inv (H : Bytes → Bytes) (maxSize v0 : Nat) {s : MState} {m : Spec} (h : TInv v0 s m) (op : TOp)
+    (hn : NoVer op) : TInv v0 (tstep H maxSize s op).1 (tsstep maxSize m op) := by
+  obtain ⟨hwf, hao, hv, hm⟩ := h
+  rcases op with bop | _ | _
+  · have hr := (step_refines maxSize (s := s) (m := m) ⟨hwf, hm⟩ bop).1
+    refine ⟨hr.1, ?_, ?_, hr.2⟩
+    · cases bop with
+      | ins p b =>
+        have := (Verif.Mpt.repr_step Verif.Props.C02.mapLaws maxSize v0 s.t m (.ins p b) ⟨hwf, hao, hm⟩).2.1
+        simpa [tstep, mstep, Verif.Mpt.step, hv] using this
+      | del p =>
+        have := (Verif.Mpt.repr_step Verif.Props.C02.mapLaws maxSize v0 s.t m (.del p) ⟨hwf, hao, hm⟩).2.1
+        simpa [tstep, mstep, Verif.Mpt.step, hv] using this
+      | get p => simpa [tstep, mstep] using hao
+      | iter => simpa [tstep, mstep] using hao
+      | ver v => exact absurd hn (by simp [NoVer])
+    · cases bop <;> simp_all [tstep, mstep, NoVer]
+  · exact ⟨hwf, hao, hv, hm⟩
+  · exact ⟨hwf, hao, hv, hm⟩
+
+/-- the sequential run of the extended operations agrees with the specification and keeps the invariant -/
+theorem trun_rel (H : Bytes → Bytes) (maxSize v0 : Nat) : ∀ (ops : List TOp) {s : MState} {m : Spec}, TInv v0 s m →
+    (∀ op, op ∈ ops → NoVer op) →
+    TRel H v0 maxSize m ops (trun H maxSize s ops).2 ∧ TInv v0 (trun H maxSize s ops).1 (tsfinal maxSize m ops) := by
+  intro ops
+  induction ops with
+  | nil => intro s m h _; exact ⟨trivial, h⟩
+  | cons op ops ih =>
+    intro s m h hnv
+    have hstep := tstep_inv H maxSize v0 h op (hnv op (by simp))
+    have := ih hstep (fun o ho => hnv o (by simp [ho]))
+    simp only [trun, tsfinal, List.foldl_cons]
+    refine ⟨?_, this.2⟩
+    rcases op with bop | _ | _
+    · exact ⟨(step_refines maxSize (s := s) (m := m) ⟨h.1, h.2.2.2⟩ bop).2.1, this.1⟩
+    · refine ⟨?_, this.1⟩
+      intro t' hw' ho' hl'
+      exact Verif.Props.C02.C02_root_of_content H v0 s.t t' h.1 hw' h.2.1 ho' (fun q => by rw [h.2.2.2 q, hl' q])
+    · exact this.1
+
+theorem tinv_init (v0 : Nat) : TInv v0 (Verif.Props.C01.init v0) emptySpec :=
+  ⟨Or.inl rfl, by simp [Verif.Props.C01.init, AllOrigin], rfl, fun q => by simp [Verif.Props.C01.init, emptySpec]⟩
+
+/-- the programs a thread can be left with while it runs `opProg op` -/
+inductive Suffix (L : Loc) (H : Bytes → Bytes) (maxSize : Nat) (op : TOp) : Prog MState TObs → Prop
+  | whole : Suffix L H maxSize op (.acq (modeOfOp op) (body L H maxSize op))
+  | bodyU : isUpdate op = true →
+      Suffix L H maxSize op (.rd L 0 (fun s => .wr L 0 (tstep H maxSize s op).1 (.rel (.ret (tstep H maxSize s op).2))))
+  | bodyR : isUpdate op = false → Suffix L H maxSize op (.rd L 0 (fun s => .rel (.ret (tstep H maxSize s op).2)))
+  | wr (s : MState) : Suffix L H maxSize op (.wr L 0 (tstep H maxSize s op).1 (.rel (.ret (tstep H maxSize s op).2)))
+  | rel (s : MState) : Suffix L H maxSize op (.rel (.ret (tstep H maxSize s op).2))
+  | ret (r : TObs) : Suffix L H maxSize op (.ret r)
+
+theorem Suffix.ofBody (L : Loc) (H : Bytes → Bytes) (maxSize : Nat) (op : TOp) : Suffix L H maxSize op (body L H maxSize op) := by
   unfold body
   cases h : isUpdate op
   · simp; exact .bodyR h
   · simp; exact .bodyU h
 
 /-- every program around belongs to an operation satisfying `P` -/
-structure OpsInv (L : Loc) (maxSize : Nat) (P : Op → Prop) (c : Config MState Obs) : Prop where
-  todo : ∀ t p, p ∈ (c.thr t).todo → ∃ op, P op ∧ p = opProg L maxSize op
-  cur : ∀ t p, (c.thr t).cur = some p → ∃ op, P op ∧ Suffix L maxSize op p
-  lin : ∀ e, e ∈ c.lin → ∃ op, P op ∧ e.prog = body L maxSize op
+structure OpsInv (L : Loc) (H : Bytes → Bytes) (maxSize : Nat) (P : TOp → Prop) (c : Config MState TObs) : Prop where
+  todo : ∀ t p, p ∈ (c.thr t).todo → ∃ op, P op ∧ p = opProg L H maxSize op
+  cur : ∀ t p, (c.thr t).cur = some p → ∃ op, P op ∧ Suffix L H maxSize op p
+  lin : ∀ e, e ∈ c.lin → ∃ op, P op ∧ e.prog = body L H maxSize op
 
-theorem OpsInv.init {L : Loc} {maxSize : Nat} {P : Op → Prop} (ops : Tid → List Op) (mem0 : Loc → MState)
+theorem OpsInv.init {L : Loc} {H : Bytes → Bytes} {maxSize : Nat} {P : TOp → Prop} (ops : Tid → List TOp) (mem0 : Loc → MState)
     (h : ∀ t op, op ∈ ops t → P op) :
-    OpsInv L maxSize P (Verif.RW.init (fun t => (ops t).map (opProg L maxSize)) mem0) where
+    OpsInv L H maxSize P (Verif.RW.init (fun t => (ops t).map (opProg L H maxSize)) mem0) where
   todo := by
     intro t p hp
     simp [Verif.RW.init] at hp
@@ -100,14 +195,14 @@ theorem OpsInv.init {L : Loc} {maxSize : Nat} {P : Op → Prop} (ops : Tid → L
   cur := by intro t p hp; simp [Verif.RW.init] at hp
   lin := by intro e he; simp [Verif.RW.init] at he
 
-theorem OpsInv.step {L : Loc} {maxSize : Nat} {P : Op → Prop} {c c' : Config MState Obs} {t : Tid}
-    (h : OpsInv L maxSize P c) (st : Step c t c') : OpsInv L maxSize P c' := by
+theorem OpsInv.step {L : Loc} {H : Bytes → Bytes} {maxSize : Nat} {P : TOp → Prop} {c c' : Config MState TObs} {t : Tid}
+    (h : OpsInv L H maxSize P c) (st : Step c t c') : OpsInv L H maxSize P c' := by
   -- generic part: a step that replaces thread `t` by `x`, keeping its todo list (or a tail of it)
-  have frame : ∀ (x : Thread MState Obs) (c'' : Config MState Obs),
+  have frame : ∀ (x : Thread MState TObs) (c'' : Config MState TObs),
       (∀ u, c''.thr u = (c.set t x).thr u) → c''.lin = c.lin →
       (∀ p, p ∈ x.todo → p ∈ (c.thr t).todo) →
-      (∀ p, x.cur = some p → ∃ op, P op ∧ Suffix L maxSize op p) →
-      OpsInv L maxSize P c'' := by
+      (∀ p, x.cur = some p → ∃ op, P op ∧ Suffix L H maxSize op p) →
+      OpsInv L H maxSize P c'' := by
     intro x c'' hthr hlin htodo hcur
     refine ⟨?_, ?_, fun e he => h.lin e (hlin ▸ he)⟩
     · intro u q hq
@@ -130,11 +225,11 @@ theorem OpsInv.step {L : Loc} {maxSize : Nat} {P : Op → Prop} {c c' : Config M
       exact ⟨op, hP, e ▸ .whole⟩
   | @acq m k hc hmn ha =>
     obtain ⟨op, hP, hs⟩ := h.cur t _ hc
-    have hk : k = body L maxSize op := by
+    have hk : k = body L H maxSize op := by
       cases hs; rfl
     have base := frame { c.thr t with cur := some k, main := some m, pred := some (k.run c.mem).2 }
       (c.set t { c.thr t with cur := some k, main := some m, pred := some (k.run c.mem).2 }) (fun _ => rfl) rfl
-      (fun q hq => hq) (fun q hq => by simp at hq; subst hq; exact ⟨op, hP, hk ▸ Suffix.ofBody L maxSize op⟩)
+      (fun q hq => hq) (fun q hq => by simp at hq; subst hq; exact ⟨op, hP, hk ▸ Suffix.ofBody L H maxSize op⟩)
     refine ⟨fun u q hq => base.todo u q hq, fun u q hq => base.cur u q hq, ?_⟩
     intro e he
     simp only [List.mem_append, List.mem_singleton] at he
@@ -174,16 +269,16 @@ theorem OpsInv.step {L : Loc} {maxSize : Nat} {P : Op → Prop} {c c' : Config M
     intro q hq
     simp at hq
 
-theorem OpsInv.exec {L : Loc} {maxSize : Nat} {P : Op → Prop} {c c' : Config MState Obs} {s : List Tid}
-    (h : OpsInv L maxSize P c) (ex : Exec c s c') : OpsInv L maxSize P c' := by
+theorem OpsInv.exec {L : Loc} {H : Bytes → Bytes} {maxSize : Nat} {P : TOp → Prop} {c c' : Config MState TObs} {s : List Tid}
+    (h : OpsInv L H maxSize P c) (ex : Exec c s c') : OpsInv L H maxSize P c' := by
   induction ex with
   | nil => exact h
   | cons st _ ih => exact ih (h.step st)
 
 /-- the log is the list of bodies of some list of operations, each satisfying `P` -/
-theorem OpsInv.log_ops {L : Loc} {maxSize : Nat} {P : Op → Prop} : ∀ (es : List (LinEntry MState Obs)),
-    (∀ e, e ∈ es → ∃ op, P op ∧ e.prog = body L maxSize op) →
-    ∃ ops : List Op, (∀ op, op ∈ ops → P op) ∧ es.map (·.prog) = ops.map (body L maxSize) := by
+theorem OpsInv.log_ops {L : Loc} {H : Bytes → Bytes} {maxSize : Nat} {P : TOp → Prop} : ∀ (es : List (LinEntry MState TObs)),
+    (∀ e, e ∈ es → ∃ op, P op ∧ e.prog = body L H maxSize op) →
+    ∃ ops : List TOp, (∀ op, op ∈ ops → P op) ∧ es.map (·.prog) = ops.map (body L H maxSize) := by
   intro es
   induction es with
   | nil => intro _; exact ⟨[], by simp, rfl⟩
